@@ -100,7 +100,10 @@ impl Check for C10 {
     }
     fn run(&self, case: &SeqCase) -> Outcome {
         let mut out = Outcome::default();
-        let mut shared = Matcher::new(Cfg { ignore_case: true, normalize: true, prefer_prefix: false, profile: 0 }.to_config());
+        // the shared matcher is created with the configuration of the first call and reconfigured through
+        // its public `config` field afterwards (a matcher must not remember anything about the config it was
+        // created with)
+        let mut shared = Matcher::new(case.calls.first().map(|c| c.cfg).unwrap_or(Cfg { ignore_case: true, normalize: true, prefer_prefix: false, profile: 0 }).to_config());
         let mut alloc_sizes: Vec<(usize, usize)> = vec![];
         let mut limit_class = false;
         for (k, c) in case.calls.iter().enumerate() {
